@@ -28,6 +28,7 @@ claimed = {
  "C22": ("Symbolic RunTx of MintToken for the token, the bancor coin and a pool token, by the ticker owner or another account: accepted only for the owner of a mintable token, within max supply, by exactly the value; pool tokens (owner nil) are not mintable by a transaction.", "§4 C22", "PARTIAL: create/recreate/edit-owner/id-assignment harnesses are covered only as listed in evidence."),
  "C24": ("The real eventsStore over the KVModel: a batch with one event of each compacted kind and symbolic amounts, committed after 0..2 earlier batches and optionally a store restart, loads back unchanged from the same and from a fresh store; earlier batches stay loadable.", "§4 C24", "PARTIAL: id tables of at most 3 entries; tmjson as field box."),
  "C26": ("Two-delivery harness on RunTx: the same signed bytes delivered twice; the second delivery must be rejected and change no balance of the payer nor the reward pool, whatever the first returned.", "§4 C26", "Send transactions paid in the base coin; the failed-first-delivery case is a recorded open finding (F4)."),
+ "C23": ("The real rlp.Stream and encbuf primitives over every buffer of up to 9 arbitrary bytes: whatever string, integer or list of strings is accepted re-encodes to exactly the bytes consumed (non-canonical size/integer forms rejected), and every integer below 2^40 encodes to something that decodes to itself; the real RecoverPlain / recoverPlain / ValidateSignatureValues over arbitrary R, S, V: anything not rejected has V in {27,28}, 1<=R<N, 1<=S<=N/2 and its malleated twin is rejected; Transaction.Hash, Check.Hash and HashWithoutLock cover every field except the signature (lock).", "§4 C23", "PARTIAL: the reflective struct layer of rlp (typeinfo, big.Int leading-zero check, struct tags) and the curve arithmetic of Ecrecover (so 'recovered sender is the signing key') are outside: package reflect and btcec cannot be encoded."),
  "C27": ("Fee reaching the reward pool equals gasPrice x price-table entry (symbolic price table), per transaction type covered.", "§4 C27", ""),
 }
 
@@ -36,7 +37,7 @@ not_applicable = {
  "C29": "state sync: every component on the path (zlib, protobuf, cosmos-sdk snapshot store, IAVL exporter/importer, a goroutine) would be a stub, leaving no repository logic under the solver (DESIGN.md §5)",
 }
 pending = {k: "not claimed yet in this revision: harnesses under construction (see DESIGN.md); no check is registered, so nothing is asserted about it" for k in
-           ["C11","C14","C15","C17","C21","C23"]}
+           ["C11","C14","C15","C17","C21"]}
 
 def main():
     checks = []
